@@ -462,7 +462,7 @@ static bool need_space(Token *prev, Token *tok) {
 
   if (is_word_char(a) && (is_word_char(b) || b == '"' || b == '\''))
     return true;
-  if (is_num && (b == '.' || ((b == '+' || b == '-') && strchr("eEpP", a))))
+  if (is_num && (b == '.' || isalnum(b) || ((b == '+' || b == '-') && strchr("eEpP", a))))
     return true;
   if (a == '.' && isdigit(b))
     return true;
